@@ -163,7 +163,10 @@ func doBind(sc *Collection, originalInvokeF *provider, originalInitF *provider, 
 	for i := invokeIndex - 1; i >= 0; i-- {
 		fm := funcs[i]
 		fm.mustZeroIfRemainderSkipped = vmapMapped(downVmap)
-		addToVmap(fm, outputParams, downVmap, fm.downRmap, &vCount)
+		// outputs are stored under their own types: downRmap is about where
+		// the inputs come from and must not redirect an output that happens
+		// to have the type of an input
+		addToVmap(fm, outputParams, downVmap, nil, &vCount)
 	}
 	if initF != nil {
 		for _, tc := range initF.flows[bypassParams] {
